@@ -75,6 +75,185 @@ let () =
       else "PANIC"
     | _ -> "BADARGS")
 
+
+let rec nat_of_int n = if n <= 0 then O else S (nat_of_int (n - 1))
+let rec int_of_nat = function O -> 0 | S n -> 1 + int_of_nat n
+let ni s = n_of_int (int_of_string s)
+let err_name = function
+  | TooShort -> "TooShort" | UnsupportedMajorVersion -> "UnsupportedMajorVersion"
+  | UnsupportedMessageType -> "UnsupportedMessageType" | UnexpectedMessageType -> "UnexpectedMessageType"
+  | NotADataFrame -> "NotADataFrame" | InvalidLength -> "InvalidLength" | TruncatedFhdr -> "TruncatedFhdr"
+  | MissingKey -> "MissingKey" | InvalidMic -> "InvalidMic" | BufferTooShort -> "BufferTooShort"
+  | FOptsTooLong -> "FOptsTooLong" | FOptsWithFPortZero -> "FOptsWithFPortZero"
+let ftype_of_int = function 0 -> UnconfirmedUp | 1 -> UnconfirmedDown | 2 -> ConfirmedUp | _ -> ConfirmedDown
+let int_of_ftype = function UnconfirmedUp -> 0 | UnconfirmedDown -> 1 | ConfirmedUp -> 2 | ConfirmedDown -> 3
+let canary n = List.init n (fun _ -> n_of_int 0xAA)
+let opt_key s = if s = "none" then None else Some (bytes_of_hex s)
+(* 64-bit identifiers do not fit OCaml's 63-bit int: parse decimal strings into N by Horner *)
+let n_of_dec (s : string) : n =
+  let ten = n_of_int 10 in
+  let acc = ref N0 in
+  String.iter (fun c -> acc := N.add (N.mul !acc ten) (n_of_int (Char.code c - 48))) s; !acc
+let rec dec_of_n (v : n) : string =
+  match v with
+  | N0 -> "0"
+  | _ ->
+    let ten = n_of_int 10 in
+    let rec go v acc = match v with N0 -> acc | _ -> go (N.div v ten) (string_of_int (int_of_n (N.modulo v ten)) ^ acc) in
+    go v ""
+
+let parse_payload pl =
+  if pl = "none" then PNone
+  else if String.length pl >= 5 && String.sub pl 0 5 = "data:" then begin
+    let rest = String.sub pl 5 (String.length pl - 5) in
+    let i = String.index rest ':' in
+    PData (ni (String.sub rest 0 i), bytes_of_hex (String.sub rest (i + 1) (String.length rest - i - 1)))
+  end else PMac (bytes_of_hex (String.sub pl 4 (String.length pl - 4)))
+
+let mk_frame a =
+  match a with
+  | ft :: addr :: flags :: fcnt :: fopts :: pl :: nwk :: app :: rest ->
+    let f = int_of_string flags in
+    ({ df_type = ftype_of_int (int_of_string ft); df_addr = n_of_dec addr;
+       df_adr = f land 8 <> 0; df_adr_ack_req = f land 4 <> 0; df_ack = f land 2 <> 0; df_f_pending = f land 1 <> 0;
+       df_fcnt = n_of_dec fcnt; df_f_opts = bytes_of_hex fopts; df_payload = parse_payload pl },
+     bytes_of_hex nwk, opt_key app, rest)
+  | _ -> failwith "frame args"
+
+let parse_cflist s =
+  if s = "none" then None
+  else if String.sub s 0 4 = "dyn:" then
+    Some (CfDynamic (List.map n_of_dec (String.split_on_char ',' (String.sub s 4 (String.length s - 4)))))
+  else Some (CfFixed (bytes_of_hex (String.sub s 4 (String.length s - 4))))
+let cflist_str = function
+  | None -> "none"
+  | Some (CfDynamic f) -> "dyn:" ^ String.concat "," (List.map dec_of_n f)
+  | Some (CfFixed m) -> "fix:" ^ hex_of_bytes m
+
+let built r buf =
+  match r with
+  | Ok (b, n) -> Printf.sprintf "OK %d %s" (int_of_nat n) (hex_of_bytes b)
+  | Err e -> Printf.sprintf "ERR %s %s" (err_name e) (hex_of_bytes buf)
+
+let describe_data bs (l : layout) frm =
+  let fc = v_fctrl bs in
+  let up = (match l.l_type with UnconfirmedUp | ConfirmedUp -> true | _ -> false) in
+  Printf.sprintf "type=%d addr=%s fctrl=%d adr=%s adrackreq=%s ack=%s fpending=%s foptslen=%d fcnt=%d fopts=%s fport=%s frm=%s mic=%s"
+    (int_of_ftype l.l_type) (dec_of_n (v_dev_addr bs)) (int_of_n fc)
+    (tok_of_bool (fc_adr fc)) (tok_of_bool (fc_adr_ack_req fc up)) (tok_of_bool (fc_ack fc)) (tok_of_bool (fc_f_pending fc up))
+    (int_of_n (fc_f_opts_len fc)) (int_of_n (v_fcnt bs)) (hex_of_bytes (v_f_opts bs l))
+    (match v_f_port bs l with None -> "none" | Some p -> string_of_int (int_of_n p))
+    frm (hex_of_bytes (mic_of bs))
+
+let () =
+  register "build_data" (fun a ->
+    match a with
+    | _variant :: rest ->
+      let (d, nwk, app, r) = mk_frame rest in
+      let buf = canary (int_of_string (List.hd r)) in
+      built (x_build_data d nwk app buf) buf
+    | _ -> "BADARGS");
+  register "spec_data" (fun a ->
+    match a with
+    | _variant :: rest ->
+      let (d, nwk, app, _) = mk_frame rest in
+      (match x_spec_data d nwk app with None -> "FORBIDDEN" | Some f -> "OK " ^ hex_of_bytes f)
+    | _ -> "BADARGS");
+  register "build_jr" (function
+    | [_variant; je; de; dn; key; buflen] ->
+      let buf = canary (int_of_string buflen) in
+      built (x_build_join_request (n_of_dec je) (n_of_dec de) (n_of_dec dn) (bytes_of_hex key) buf) buf
+    | _ -> "BADARGS");
+  register "spec_jr" (function
+    | [_variant; je; de; dn; key; _] ->
+      "OK " ^ hex_of_bytes (x_spec_join_request (n_of_dec je) (n_of_dec de) (n_of_dec dn) (bytes_of_hex key))
+    | _ -> "BADARGS");
+  register "build_ja" (function
+    | [jn; nid; da; dls; rxd; cfl; key; buflen] ->
+      let buf = canary (int_of_string buflen) in
+      built (x_build_join_accept (n_of_dec jn) (n_of_dec nid) (n_of_dec da) (ni dls) (ni rxd) (parse_cflist cfl) (bytes_of_hex key) buf) buf
+    | _ -> "BADARGS");
+  register "spec_ja" (function
+    | [jn; nid; da; dls; rxd; cfl; key; _] ->
+      "OK " ^ hex_of_bytes (x_spec_join_accept (n_of_dec jn) (n_of_dec nid) (n_of_dec da) (ni dls) (ni rxd) (parse_cflist cfl) (bytes_of_hex key))
+    | _ -> "BADARGS");
+  register "parse_phy" (function
+    | [b] -> (match x_parse_phy (bytes_of_hex b) with
+              | Ok N0 -> "JR" | Ok (Npos XH) -> "JA" | Ok _ -> "DATA" | Err e -> "ERR " ^ err_name e)
+    | _ -> "BADARGS");
+  register "parse_data" (function
+    | [mode; b; nwk; app; fcnt] ->
+      let bs = bytes_of_hex b in
+      let fc = n_of_dec fcnt in
+      (match mode with
+       | "parse" ->
+         (match x_validate bs with
+          | Err e -> "ERR " ^ err_name e
+          | Ok l -> describe_data bs l ("enc:" ^ hex_of_bytes (v_frm bs l)))
+       | "mic" ->
+         (match x_validate bs with
+          | Err e -> "ERR " ^ err_name e
+          | Ok _ -> "MIC " ^ tok_of_bool (x_validate_mic bs (bytes_of_hex nwk) fc))
+       | "decrypt" | "check" ->
+         let (r, buf) =
+           if mode = "decrypt" then x_decrypt_in_place bs (opt_key nwk) (opt_key app) fc
+           else x_check_mic_and_decrypt bs (bytes_of_hex nwk) (opt_key app) fc in
+         let s = (match r with
+           | Err e -> "ERR " ^ err_name e
+           | Ok l ->
+             let frm = v_frm buf l in
+             let f = (match v_f_port buf l with
+               | None -> "none:-"
+               | Some N0 -> "mac:" ^ hex_of_bytes frm
+               | Some _ -> "data:" ^ hex_of_bytes frm) in
+             "OK " ^ describe_data buf l f) in
+         s ^ " buf=" ^ hex_of_bytes buf
+       | _ -> "BADARGS")
+    | _ -> "BADARGS");
+  register "spec_mic" (function
+    | [b; nwk; fcnt] ->
+      let bs = bytes_of_hex b in
+      if x_wf_wire bs then
+        "MIC " ^ tok_of_bool (hex_of_bytes (x_spec_mic bs (bytes_of_hex nwk) (n_of_dec fcnt)) = hex_of_bytes (mic_of bs))
+      else "MALFORMED"
+    | _ -> "BADARGS");
+  register "parse_jr" (function
+    | [b; key] ->
+      let bs = bytes_of_hex b in
+      (match x_parse_join_request bs with
+       | Err e -> "ERR " ^ err_name e
+       | Ok _ ->
+         let sl a b = le_value (List.filteri (fun i _ -> i >= a && i < b) bs) in
+         Printf.sprintf "OK joineui=%s deveui=%s devnonce=%s mic=%s micok=%s"
+           (dec_of_n (sl 1 9)) (dec_of_n (sl 9 17)) (dec_of_n (sl 17 19)) (hex_of_bytes (mic_of bs))
+           (tok_of_bool (x_jr_validate_mic bs (bytes_of_hex key))))
+    | _ -> "BADARGS");
+  register "ja_decrypt" (function
+    | [mode; b; key; dn] ->
+      let bs = bytes_of_hex b and k = bytes_of_hex key in
+      let (r, buf) = if mode = "check" then x_ja_check_mic_and_decrypt bs k else x_ja_decrypt_in_place bs k in
+      let s = (match r with
+        | Err e -> "ERR " ^ err_name e
+        | Ok _ ->
+          let dls = int_of_n (ja_dl_settings buf) in
+          Printf.sprintf "OK micok=%s joinnonce=%s netid=%s devaddr=%s dls=%d rx1off=%d rx2dr=%d rxdelay=%d cflist=%s mic=%s nwkskey=%s appskey=%s"
+            (tok_of_bool (x_ja_validate_mic buf k)) (dec_of_n (ja_join_nonce buf)) (dec_of_n (ja_net_id buf))
+            (dec_of_n (ja_dev_addr buf)) dls ((dls lsr 4) land 7) (dls land 15) (int_of_n (ja_rx_delay buf))
+            (cflist_str (ja_c_f_list buf)) (hex_of_bytes (mic_of buf))
+            (hex_of_bytes (x_derive_session_key buf (n_of_int 1) (n_of_dec dn) k))
+            (hex_of_bytes (x_derive_session_key buf (n_of_int 2) (n_of_dec dn) k))) in
+      s ^ " buf=" ^ hex_of_bytes buf
+    | _ -> "BADARGS");
+  register "aes" (function
+    | [m; key; blk] ->
+      hex_of_bytes ((if m = "enc" then aes_encrypt else aes_decrypt) (bytes_of_hex key) (bytes_of_hex blk))
+    | _ -> "BADARGS");
+  register "cmac" (function
+    | [_v; key; b0; data] ->
+      let full = aes_cmac (bytes_of_hex key) (bytes_of_hex b0 @ bytes_of_hex data) in
+      hex_of_bytes (List.filteri (fun i _ -> i < 4) full)
+    | _ -> "BADARGS")
+
 let chip_index = function
   | "sx1261" | "sx1262" | "stm32wl" -> 0 | "sx1276" -> 1 | "sx1272" -> 2 | "lr1110" -> 3
   | _ -> failwith "chip"
